@@ -187,11 +187,6 @@ class MutateFamily(Family):
         if i == 0 or i > len(sc["ops"]):
             return None
         op = sc["ops"][i - 1]
-        # F5: assignment to an iterator-typed attribute declared without an expression raises
-        # AttributeError instead of SetError (document unchanged)
-        if op[0] == "d.set" and op[2] == "iter" and op[1][-1][1] is None and a["g"] == b["g"] \
-                and a["r"] == ["err", ["AttributeError"]] and b["r"] == ["err", ["SetError"]]:
-            return "C18-iter-default-expression-assign"
         return None
 
     def classify(self, ctx, sc, py):
